@@ -2,6 +2,7 @@ import PV.Model.Eval
 import PV.Model.Ops
 import PV.Model.Traverse
 import PV.Driver.GAOps
+import PV.Driver.MatchpyOps
 import PV.Driver.CseTallyOps
 import PV.Driver.NodeCountOps
 import PV.Driver.AlgoFftOps
@@ -210,6 +211,7 @@ def handlers : List (Sexp → Option Sexp) :=
    , handleC19Fft
    , handleNodeCount
    , handleCseTally
+   , handleMatchpy
    -- HANDLERS
   ]
 
